@@ -33,6 +33,8 @@ def check_scalar(value, low, high, tol):
     outside = v_f < l_f or v_f > h_f
     far = v_f < l_f - t_f or v_f > h_f + t_f
     desc = f"(value={value!r}, lower={low!r}, upper={high!r})"
+    core.rejected(plot_utils.checkLimitsTol, "a", low, high, tol)
+    core.rejected(plot_utils.point_in_bounds, [value], [[low, low], [high, high]], tol)
     try:
         got, flag = plot_utils.checkLimits(value, low, high)
         if F(got) != want or flag is not outside:
